@@ -55,6 +55,10 @@ CHECKS = {
  "C08": ("opspace", "exhaustive enumeration of all operand pairs of a special-value alphabet x operations x contexts x trap sets on the real code against the GDA special-value table, closed to depth 2",
          "All 22 Context operations on all ordered pairs of NaN/sNaN (signs, payloads), clean and dirty infinities, signed zeros of many exponents and finite values, in contexts incl. floor/ceiling and trap sets; result class, sign, propagated payload, exact condition set and error-iff-trapped are compared with the table; special results produced by depth-1 operations are fed back as operands.",
          "Cbrt(-Inf) and signs of Neg/Ceil/Floor(0) not asserted; ordinary finite arithmetic delegated to C01/C02.", "4/C08"),
+
+ "C03": ("opspace+stategraph", "bounded-exhaustive enumeration of (operation, operands, context) x the trap-set lattice on the real code with a relational oracle against the untrapped execution; explicit-state BFS of the ErrDecimal machine against a two-field model",
+         "Part A: every case of the alphabet is run under the empty trap set and under 80 trap sets (all 4096 on a core of cases; everywhere for single-rounding operations in the thorough tier): trapped condition => error, nil error => identical result and flags, single-rounding operations: error iff trapped/system with the result delivered alongside. Part B: BFS over sequences of the 21 ErrDecimal wrappers x 7 argument tuples x 3 trap sets to depth 3 (+ all unmerged length-2 sequences) against the model 'once failed, nothing is touched; otherwise exactly the Context operation of the same name'.",
+         "Composite functions may fail under non-empty trap sets although the final result is exact; errors of composite functions under the empty trap set are not judged by this property.", "4/C03"),
 }
 
 NOT_YET = {}
@@ -91,8 +95,8 @@ def main():
             "add_only": True,
         },
         "engines": [
-            {"name": "opspace", "path": "/verif/internal/core + /verif/internal/props", "serves_properties": sorted(k for k,v in CHECKS.items() if v[0]=="opspace"), "kind_free_text": "bounded-exhaustive operation-space explorer over the real code with a reference model (E1)"},
-            {"name": "stategraph", "path": "/verif/internal/props", "serves_properties": sorted(k for k,v in CHECKS.items() if v[0]=="stategraph"), "kind_free_text": "explicit-state BFS with canonical state hashing over method sequences on real objects (E2)"},
+            {"name": "opspace", "path": "/verif/internal/core + /verif/internal/props", "serves_properties": sorted(k for k,v in CHECKS.items() if "opspace" in v[0]), "kind_free_text": "bounded-exhaustive operation-space explorer over the real code with a reference model (E1)"},
+            {"name": "stategraph", "path": "/verif/internal/props", "serves_properties": sorted(k for k,v in CHECKS.items() if "stategraph" in v[0]), "kind_free_text": "explicit-state BFS with canonical state hashing over method sequences on real objects (E2)"},
             {"name": "sched", "path": "/verif/internal/sched", "serves_properties": sorted(k for k,v in CHECKS.items() if v[0]=="sched"), "kind_free_text": "cooperative scheduler + DFS over interleavings with iterative preemption bounding on an instrumented overlay (E3)"},
         ],
         "checks": checks,
